@@ -53,7 +53,7 @@ pub fn run_program(ctx: &mut Ctx, program: &str, roots: &[(String, D)], values: 
     let mut queries = vec![];
     for (i, (name, _)) in roots.iter().enumerate() {
         queries.push(json!({"q":"validateMany","parser":name,"values": values[i].iter().map(|(v,_)| v.to_tagged()).collect::<Vec<_>>(), "optsList":[null, {"strict": true}]}));
-        queries.push(json!({"q":"hash256","parser":name}));
+        queries.push(json!({"q":"hash256","parser":name,"tokens":true}));
         queries.push(json!({"q":"hash","parser":name}));
     }
     let resp = node_case(ctx, Some(&code), queries)?;
@@ -163,12 +163,50 @@ impl Check for C08 {
             let (h1, h2) = (&a.hash256[i]["r"], &b.hash256[i]["r"]);
             if h1 != h2 {
                 let du = case.used1.contains_key("du_merged") || case.used2.contains_key("du_merged");
-                let sig = if du { "discriminated_union_shape" } else { hash_difference_class(&case.env, d) };
+                let sig = if du { "discriminated_union_shape".to_string() } else { token_diff_class(&a.hash256[i], &b.hash256[i], &case.env, d) };
                 out.mismatch(ctx, &format!("hash256_differs:{}", sig), format!("{}: hash256 differs between the two spellings ({} vs {})", name, h1, h2), json!({"p1": case.p1, "p2": case.p2, "parser": name, "type": d}));
             }
         }
         out
     }
+}
+
+/// Where do two canonical encodings (token sequences fed to the SHA-256 writer) first differ?  The class names the
+/// two differing tokens (tags by name, payloads by kind) and the enclosing tag: e.g. `N|N@anyOf` = the member count of
+/// a union differs (a nested vs a flattened union), `N|N@cycleRef` = cycle numbering, `T:anyOf|T:anyOfConsts@object`.
+/// Falls back to the coarse shape class when the writer could not be tapped.
+pub fn token_diff_class(a: &Value, b: &Value, env: &Env, d: &D) -> String {
+    match crate::htree::diff_class(&a["tokens"], &b["tokens"]) {
+        Some("other") => {
+            // name the first differing tokens too (debugging aid, and keeps unrelated "other"s apart)
+            format!("other:{}", first_token_difference(&a["tokens"], &b["tokens"]))
+        }
+        Some(c) => c.to_string(),
+        // the writer could not be tapped or the encoding has a shape this parser does not know: coarse class
+        None => hash_difference_class(env, d).to_string(),
+    }
+}
+fn first_token_difference(a: &Value, b: &Value) -> String {
+    let (ta, tb) = match (a.as_array(), b.as_array()) {
+        (Some(x), Some(y)) => (x, y),
+        _ => return "untapped".into(),
+    };
+    let kind = |t: Option<&Value>| -> String {
+        match t.and_then(|x| x.as_str()) {
+            None => "END".to_string(),
+            Some(x) if x.starts_with("T:") => x.to_string(),
+            Some(x) => x.chars().take(1).collect(),
+        }
+    };
+    let mut i = 0;
+    while i < ta.len() && i < tb.len() && ta[i] == tb[i] {
+        i += 1;
+    }
+    let (mut x, mut y) = (kind(ta.get(i)), kind(tb.get(i)));
+    if x > y {
+        std::mem::swap(&mut x, &mut y);
+    }
+    format!("{}|{}", x, y)
 }
 
 /// which shape the type has that the two known hash256 findings hinge on
@@ -460,11 +498,13 @@ impl Check for C13 {
                         out.mismatch(ctx, "hash256_threw", format!("hash256() threw: {}", t), json!({"p1": pp.p1, "p2": pp.p2}));
                         continue;
                     }
-                    let class = hash_difference_class(&pp.env, d);
                     if a.hash256[i]["r"] != b.hash256[i]["r"] {
+                        let class = token_diff_class(&a.hash256[i], &b.hash256[i], &pp.env, d);
                         out.mismatch(ctx, &format!("hash256_differs:{}", class), "hash256 differs between two spellings that differ only in names, alias boundaries, order or comments", json!({"p1": pp.p1, "p2": pp.p2, "type": d}));
                     }
                     if !renamed && a.hash[i]["r"] != b.hash[i]["r"] {
+                        // located through the hash256 encodings of the same two validators
+                        let class = token_diff_class(&a.hash256[i], &b.hash256[i], &pp.env, d);
                         out.mismatch(ctx, &format!("hash_differs:{}", class), "hash() differs between two spellings that differ only in names, alias boundaries, order or comments", json!({"p1": pp.p1, "p2": pp.p2, "type": d}));
                     }
                 }
@@ -581,7 +621,7 @@ impl Check for C15 {
         for (i, (name, _)) in case.roots.iter().enumerate() {
             queries.push(json!({"q":"describe","parser":name}));
             queries.push(json!({"q":"validateMany","parser":name,"values": case.values[i].iter().map(|(v,_)| v.to_tagged()).collect::<Vec<_>>(), "optsList":[null, {"strict": true}]}));
-            queries.push(json!({"q":"hash256","parser":name}));
+            queries.push(json!({"q":"hash256","parser":name,"tokens":true}));
         }
         let resp = match node_case(ctx, Some(&code), queries) {
             Ok(r) => r,
@@ -637,7 +677,7 @@ impl Check for C15 {
             }
             let q2 = vec![
                 json!({"q":"validateMany","parser":name,"values": case.values[i].iter().map(|(v,_)| v.to_tagged()).collect::<Vec<_>>(), "optsList":[null, {"strict": true}]}),
-                json!({"q":"hash256","parser":name}),
+                json!({"q":"hash256","parser":name,"tokens":true}),
             ];
             let resp2 = match node_case(ctx, Some(c2.code.as_ref().unwrap()), q2) {
                 Ok(r) => r,
@@ -681,7 +721,7 @@ impl Check for C15 {
             if h1 != h2 && tpl_oneof {
                 out.mismatch(ctx, "second_generation_disagrees:template_union_placeholder", format!("{}: hash256 changes through describe() ({} vs {})", name, h1, h2), json!({"program": case.program, "parser": name, "described": text, "type": d}));
             } else if h1 != h2 {
-                out.mismatch(ctx, &format!("second_generation_hash256_differs:{}", hash_difference_class(&case.env, d)), format!("{}: hash256 changes through describe() ({} vs {})", name, h1, h2), json!({"program": case.program, "parser": name, "described": text, "type": d}));
+                out.mismatch(ctx, &format!("second_generation_hash256_differs:{}", token_diff_class(&resp["results"][3 * i + 2], &resp2["results"][1], &case.env, d)), format!("{}: hash256 changes through describe() ({} vs {})", name, h1, h2), json!({"program": case.program, "parser": name, "described": text, "type": d}));
             }
         }
         out
